@@ -67,6 +67,10 @@ def bw_fixed():
     # >= 3 blocks: evicts with num_free_blocks 1 and 2; low labels after the extension
     s["evict3"] = ([B(i) for i in range(0xFE)] + [B(0x61, 0x62, c) for c in range(0x100)]
                    + [B(0x7F, 0), B(0x7F, 0x80), B(0x7E, 1), B(0x7E, 0x81), B(0, 0), B(0xFF, 0, 1)])
+    # states whose 255 children (0x01..=0xFF, no NUL child) fill a fresh block except its head slot:
+    # the head slot stays vacant and only the sanitising pass keeps byte 0x00 from following it
+    s["fanx"] = ([B(0)] + [B(h, c) for h in (0x68, 0x69, 0x6A, 0x6B) for c in range(1, 0x100)]
+                 + [B(0x68, 0x01, 0x00), B(0x6C, 0x00, 0x6C)])
     return s
 
 
